@@ -283,3 +283,31 @@ struct ExactBuf {
 };
 
 } // namespace vf
+
+#include <optional>
+namespace vf {
+using StageFn = std::function<void(Run &)>;
+using ReplayFn = std::function<std::optional<Failure>(Run &, const Case &)>;
+// Standard main of a property binary: --replay <case> or --stage <name>.
+inline int std_main(int argc, char **argv, const char *pid, const std::map<std::string, StageFn> &stages, ReplayFn replay,
+                    std::function<std::string()> infl, std::function<bool(Run &)> init = nullptr, std::function<void()> fini = nullptr) {
+    Run R; R.a = parse_args(argc, argv); R.prop = pid;
+    install_death(R.a);
+    inflight() = infl;
+    if (init && !init(R)) { fprintf(stderr, "%s: harness initialisation failed\n", pid); return 2; }
+    int rcode;
+    if (!R.a.replay.empty()) {
+        auto f = replay(R, Case::parse(R.a.replay));
+        if (f) { printf("REPLAY-FAIL %s: %s\n", f->cls.c_str(), f->explain.c_str()); rcode = 3; }
+        else { printf("REPLAY-PASS\n"); rcode = 0; }
+    } else {
+        auto it = stages.find(R.a.stage);
+        if (it == stages.end()) { fprintf(stderr, "unknown stage %s\n", R.a.stage.c_str()); return 2; }
+        it->second(R);
+        rcode = finish(R);
+    }
+    inflight() = nullptr;
+    if (fini) fini();
+    return rcode;
+}
+} // namespace vf
